@@ -203,6 +203,84 @@ Proof.
   intros P Sh Lo step at_site Sc. apply (noninterference_under_premise Sh Lo step at_site sites Sc). now apply premiseb_spec.
 Qed.
 
+(* ---------- histories: "the result it returns when run alone" ---------- *)
+
+(* A process keeps a state between the calls made in it (package-level variables, caches); a call maps the state and its arguments to a new
+   state and a result. `result_after h a` is what the call with arguments `a` returns in a process in which the calls `h` were made before
+   (in that order), starting from the state of a fresh process; `result_after [] a` is the result "when run alone".
+   If results are functions of the arguments alone (the library keeps no state that a result depends on), every history gives the same result:
+   any two processes, fresh or not, agree on every call. The run-time check of this hypothesis is the fresh-process comparison of the harness
+   (the same calls made alone in their own process, and made in another order in another process, must return what they return in the mix).
+   The converse direction is shown on a memo table keyed on part of the arguments (`Memo`): the first call decides what later calls return. *)
+Section History.
+  Variables (State Arg Res : Type).
+  Variable call : State -> Arg -> State * Res.
+  Variable fresh : State.
+
+  Fixpoint state_after (h : list Arg) (s : State) : State :=
+    match h with
+    | [] => s
+    | a :: r => state_after r (fst (call s a))
+    end.
+
+  Definition result_after (h : list Arg) (a : Arg) : Res := snd (call (state_after h fresh) a).
+
+  (* results depend on the arguments only, in every state a process can be in *)
+  Definition args_only : Prop := exists f : Arg -> Res, forall h a, result_after h a = f a.
+
+  Definition history_independent : Prop := forall h1 h2 a, result_after h1 a = result_after h2 a.
+
+  Theorem args_only_gives_history_independence : args_only -> history_independent.
+  Proof. intros [f Hf] h1 h2 a. now rewrite (Hf h1 a), (Hf h2 a). Qed.
+
+  (* in particular: after any history a call returns what it returns as the only call of a fresh process *)
+  Corollary args_only_same_as_alone : args_only -> forall h a, result_after h a = result_after [] a.
+  Proof. intros H h a. exact (args_only_gives_history_independence H h [] a). Qed.
+
+  (* and conversely: comparing every history with the fresh process is a complete test of the hypothesis *)
+  Theorem same_as_alone_gives_args_only : (forall h a, result_after h a = result_after [] a) -> args_only.
+  Proof. intro H. exists (fun a => result_after [] a). exact H. Qed.
+
+  Theorem same_as_alone_iff_args_only : (forall h a, result_after h a = result_after [] a) <-> args_only.
+  Proof. split; [apply same_as_alone_gives_args_only | apply args_only_same_as_alone]. Qed.
+
+  (* a sufficient condition read off the code: no call changes the state *)
+  Lemma stateless_calls_are_args_only : (forall s a, fst (call s a) = s) -> args_only.
+  Proof.
+    intro F. exists (fun a => snd (call fresh a)). intros h a. unfold result_after.
+    assert (E : forall h s, state_after h s = s).
+    { induction h0 as [|b r IH]; intro s; cbn; [reflexivity|]. rewrite F. apply IH. }
+    now rewrite E.
+  Qed.
+End History.
+
+(* A memo table keyed on part of the arguments: the argument is (key, row), the true result is key + row, the table remembers the first result
+   per key. Run alone, (1, 7) returns 8; after (1, 5) it returns 6. *)
+Module Memo.
+  Definition State := list (nat * nat).
+  Definition Arg := (nat * nat)%type.
+  Fixpoint lookup (k : nat) (t : State) : option nat :=
+    match t with
+    | [] => None
+    | (k', v) :: r => if Nat.eqb k k' then Some v else lookup k r
+    end.
+  Definition call (t : State) (a : Arg) : State * nat :=
+    match lookup (fst a) t with
+    | Some v => (t, v)
+    | None => ((fst a, fst a + snd a) :: t, fst a + snd a)
+    end.
+  Lemma history_dependent :
+    result_after State Arg nat call [] [] (1, 7) = 8 /\ result_after State Arg nat call [] [(1, 5)] (1, 7) = 6.
+  Proof. split; reflexivity. Qed.
+End Memo.
+
+Theorem memo_on_part_of_the_arguments_is_history_dependent :
+  exists (State Arg Res : Type) (call : State -> Arg -> State * Res) (fresh : State), ~ history_independent State Arg Res call fresh.
+Proof.
+  exists Memo.State, Memo.Arg, nat, Memo.call, []. intro H.
+  specialize (H [] [(1, 5)] (1, 7)). destruct Memo.history_dependent as [E1 E2]. rewrite E1, E2 in H. discriminate H.
+Qed.
+
 (* ---------- non-vacuity: a concrete system that satisfies the premise ---------- *)
 
 (* Two kinds of calls over a shared read-only argument (a list of numbers): thread state = (program counter, accumulator);
